@@ -52,8 +52,10 @@ def check_revenue_fn(ctx) -> None:
     # series length
     for st in f.node.body:
         if isinstance(st, ast.Assign) and norm(st.targets[0]) in ('CashFlow', 'CummCashFlow'):
-            ok = isinstance(st.value, ast.BinOp) and isinstance(st.value.op, ast.Mult) and norm(st.value.left) == '[0.0]' and \
-                _eq(tr.tr(st.value.right), L + C)
+            from gxstat.inline import inline_block_locals
+            v_ = inline_block_locals(st.value, st)
+            ok = isinstance(v_, ast.BinOp) and isinstance(v_.op, ast.Mult) and norm(v_.left) == '[0.0]' and \
+                _eq(tr.tr(v_.right), L + C)
             ctx.check(ok, 'K1', f'CalculateRevenue/{norm(st.targets[0])}/length', f'{rel}:{st.lineno}',
                       f'`{norm(st)}`: revenue series is not lifetime + construction years long (zero-filled)')
     for key, lst in by.items():
@@ -305,13 +307,15 @@ def check_calculate(ctx, fn: FuncInfo, tag: str) -> None:
     for s in stores:
         ctx.check(s.line < c.lineno, 'K4', f'{tag}/assembled-before-evaluation@{s.key.split(".")[1]}', f'{rel}:{s.line}',
                   'a cash-flow assembly step runs after the financial performance was computed')
-    # ---- K6 payback
-    pb = [x for x in ast.walk(fn.node) if isinstance(x, ast.For) and any(
+    # ---- K6 payback (on the canonical form: attribute aliases inlined, continue-guards un-nested)
+    from gxstat.inline import canonical_function
+    cfn = canonical_function(fn.node)
+    pb = [x for x in ast.walk(cfn) if isinstance(x, ast.For) and any(
         isinstance(y, ast.Assign) and norm(y.targets[0]) == 'self.ProjectPaybackPeriod.value' for y in ast.walk(x))]
     ctx.require(len(pb) == 1, f'{tag}: payback scan loop not found')
     lp = pb[0]
     where = f'{rel}:{lp.lineno}'
-    g = guards_of(lp, fn.node)
+    g = guards_of(lp, cfn)
     ctx.check(not g, 'K6', f'{tag}/payback/scan-unconditional', where,
               f'the payback scan only runs when `{norm(g[0][0]) if g else ""}`: a project whose cumulative cash flow turns positive '
               f'(and e.g. ends negative) is reported as never paying back')
@@ -324,8 +328,8 @@ def check_calculate(ctx, fn: FuncInfo, tag: str) -> None:
               f'last year and no crossing is skipped', fact='range(1, len(cum))')
     iv = norm(lp.target)
     tests = [x for x in lp.body if isinstance(x, ast.If)]
-    ok = len(tests) == 1 and norm(tests[0].test) in (f'{cumk}[{iv}] > 0 >= {cumk}[{iv} - 1]',
-                                                     f'{cumk}[{iv} - 1] <= 0 < {cumk}[{iv}]')
+    ok = len(tests) == 1 and norm(tests[0].test).strip('()') in (f'{cumk}[{iv}] > 0 >= {cumk}[{iv} - 1]',
+                                                                 f'{cumk}[{iv} - 1] <= 0 < {cumk}[{iv}]')
     ctx.check(ok, 'K6', f'{tag}/payback/crossing-test', where,
               f'crossing test is `{norm(tests[0].test) if tests else "?"}`; expected cum[i] > 0 >= cum[i-1]')
     if tests:
@@ -358,7 +362,7 @@ def check_calculate(ctx, fn: FuncInfo, tag: str) -> None:
                 raise AnalysisError(f'{tag} payback: {e}')
         else:
             ctx.bad('K6', f'{tag}/payback/interpolation', where, 'payback assignment not found inside the crossing test')
-    init = [y for y in fn.node.body if isinstance(y, ast.Assign) and norm(y.targets[0]) == 'self.ProjectPaybackPeriod.value']
+    init = [y for y in cfn.body if isinstance(y, ast.Assign) and norm(y.targets[0]) == 'self.ProjectPaybackPeriod.value']
     ctx.check(len(init) == 1 and norm(init[0].value) == '0.0' and init[0].lineno < lp.lineno, 'K6', f'{tag}/payback/never-pays-back-is-zero',
               where, 'payback is not initialised to 0.0 (shown as N/A) before the scan')
 
@@ -376,7 +380,9 @@ def check_financial_fn(ctx) -> None:
     fir = res.unit('self.FixedInternalRate.value')
     ctx.require(fir is not None, 'FixedInternalRate unit not resolvable')
     try:
-        t = UnitTyper(lambda k, n: fir if k == 'FixedInternalRate' else None).ty(c.args[0])
+        from gxstat.inline import enclosing_stmt, inline_block_locals
+        rate_arg = inline_block_locals(c.args[0], enclosing_stmt(c))
+        t = UnitTyper(lambda k, n: fir if k == 'FixedInternalRate' else None).ty(rate_arg)
         ctx.check(isinstance(t, UT) and t.dim == NONE and close(t.scale, Fraction(1)), 'K5', 'CalculateFinancialPerformance/npv-rate-scale',
                   f'{rel}:{c.lineno}', f'the discount rate handed to NPV is `{norm(c.args[0])}` = {t.show() if isinstance(t, UT) else t} of a '
                   f'fraction; Fixed Internal Rate is declared in % so it must be divided by 100', fact='FixedInternalRate[%] / 100 -> fraction')
@@ -387,14 +393,37 @@ def check_financial_fn(ctx) -> None:
     irr = [c for c in calls_in(f.node) if dotted_name(c.func) == 'npf.irr']
     ctx.check(len(irr) == 1 and norm(irr[0].args[0]) == 'TotalRevenue', 'K5', 'CalculateFinancialPerformance/irr-series', f.where,
               'IRR is not computed on the same TotalRevenue series as NPV')
-    # IRR scale: fraction -> % (x100) on the non-NaN path
-    aug = [s for s in ast.walk(f.node) if isinstance(s, ast.AugAssign) and norm(s.target) == 'IRR']
-    ok = len(aug) == 1 and isinstance(aug[0].op, ast.Mult) and isinstance(aug[0].value, ast.Constant) and aug[0].value.value == 100
-    if not ok:
-        ok = any(isinstance(s, ast.Assign) and norm(s.targets[0]) == 'IRR' and norm(s.value) in ('IRR * 100.0', '100.0 * IRR', 'IRR * 100', '100 * IRR')
-                 for s in ast.walk(f.node))
+    # IRR scale: fraction -> % (x100) on the non-NaN path.  Decided on the final definition(s) of IRR with named intermediates inlined:
+    # every arm / path is either the constant 0 (undetermined IRR) or npf.irr(...) x 100
+    from gxstat.inline import inline_block_locals as _ibl2
+    from gxstat.symflow import PathEnumerator as _PE, expand_def as _xd
+
+    def _irr_hook(T, call):
+        if dotted_name(call.func) == 'npf.irr':
+            return Rat.atom('IRRF')
+        return None
+
+    def _arms(e):
+        if isinstance(e, ast.IfExp):
+            return _arms(e.body) + _arms(e.orelse)
+        return [e]
+    finals = []
+    for pth in _PE(f.node.body, {'IRR'}, fork_all=True).paths():
+        d_ = pth.env.get('IRR')
+        if d_ is None or d_.expr is None:
+            continue
+        e_ = _xd(d_, only=lambda k: '.' not in k)
+        for arm in _arms(e_):
+            try:
+                finals.append(Translator(call_hook=_irr_hook).tr(arm))
+            except Unsupported as e:
+                raise AnalysisError(f'CalculateFinancialPerformance: IRR definition outside the supported algebra: {e}')
+    ctx.require(finals, 'CalculateFinancialPerformance: no definition of IRR found (idiom changed)')
+    pct = Rat.atom('IRRF') * Rat.const(100)
+    ok = any(v.equals(pct) for v in finals) and all(v.equals(pct) or (v.is_const() and v.const_value() == 0) for v in finals)
     ctx.check(ok, 'K5', 'CalculateFinancialPerformance/irr-percent', f.where,
-              'npf.irr returns a fraction; the IRR output is declared in % and must be multiplied by 100', fact='IRR *= 100')
+              'npf.irr returns a fraction; the IRR output is declared in % and must be multiplied by 100 (final values found: '
+              + ', '.join(sorted({v.show(4) for v in finals})) + ')', fact='IRR = npf.irr(...) x 100, or 0 when undetermined')
     # VIR / MOIC formulas
     defs = {norm(s.targets[0]): s for s in f.node.body if isinstance(s, ast.Assign) and isinstance(s.targets[0], ast.Name)}
     def atom_of(n):
@@ -402,10 +431,12 @@ def check_financial_fn(ctx) -> None:
             return 'cum_last'
         return None
     try:
-        vir = Translator(atom_of=atom_of).tr(defs['VIR'].value)
+        from gxstat.inline import inline_block_locals as _ibl
+        keepn = ('NPV', 'IRR', 'VIR', 'MOIC')
+        vir = Translator(atom_of=atom_of).tr(_ibl(defs['VIR'].value, defs['VIR'], keep=keepn))
         ctx.check(vir.equals(ONE + Rat.atom('NPV') / Rat.atom('CAPEX')), 'K5', 'CalculateFinancialPerformance/VIR', f'{rel}:{defs["VIR"].lineno}',
                   f'VIR = `{vir.show()}`; expected 1 + NPV / CAPEX')
-        moic = Translator(atom_of=atom_of).tr(defs['MOIC'].value)
+        moic = Translator(atom_of=atom_of).tr(_ibl(defs['MOIC'].value, defs['MOIC'], keep=keepn))
         ctx.check(moic.equals(Rat.atom('cum_last') / (Rat.atom('CAPEX') + Rat.atom('OPEX') * Rat.atom('plantlifetime'))), 'K5',
                   'CalculateFinancialPerformance/MOIC', f'{rel}:{defs["MOIC"].lineno}',
                   f'MOIC = `{moic.show()}`; expected final cumulative cash flow / (CAPEX + OPEX x lifetime)')
